@@ -549,6 +549,12 @@ impl tower::Service<Req> for Probe {
             let a = st.attempts.entry(req.id).or_insert(0);
             let attempt = *a;
             *a += 1;
+            // a layer that re-issues one request without end (inside one poll, where no scheduler
+            // can stop it) would otherwise only end with the process
+            if attempt > 50_000 {
+                drop(st);
+                panic!("probe: runaway: more than 50000 inner calls for request {}", req.id);
+            }
             let step = if req.script.is_empty() {
                 Step { lat: Lat::Us(0), out: Out::Ok }
             } else {
